@@ -783,6 +783,74 @@ fn reconn_tls(dict: Arc<Dictionary>) -> PResult<String> {
     out
 }
 
+/// CLRST <tls> <how>: a client with two requests outstanding on a real connection (plain TCP or TLS) whose peer goes away without
+/// answering - `reset` (RST: SO_LINGER 0), `close` (FIN) or `half` (the peer shuts down its sending direction only).  Both futures
+/// complete with an error, and a send afterwards fails or yields a future that fails.
+pub fn client_reset(st: &State, t: &mut Toks) -> PResult<String> {
+    let dict = st.dicts.get("b").ok_or_else(|| "dict b missing".to_string())?.clone();
+    let tls = t.boolean()?;
+    let how = t.next()?.to_string();
+    let rt = rt();
+    let out = rt.block_on(async move {
+        let l = TcpListener::bind("127.0.0.1:0").await.map_err(|e| e.to_string())?;
+        let addr = l.local_addr().map_err(|e| e.to_string())?;
+        let acceptor = tokio_native_tls::TlsAcceptor::from(native_tls::TlsAcceptor::new(identity("match")?).map_err(|e| e.to_string())?);
+        let mut client = DiameterClient::new(&format!("localhost:{}", addr.port()), DiameterClientConfig { use_tls: tls, verify_cert: false });
+        let how2 = how.clone();
+        let peer = tokio::spawn(async move {
+            let (s, _) = l.accept().await.map_err(|e| e.to_string())?;
+            let mut buf = vec![0u8; 4096];
+            if tls {
+                let mut ts = acceptor.accept(s).await.map_err(|e| e.to_string())?;
+                // both requests (two frames of the same size) have arrived: now go away
+                let mut got = 0usize;
+                while got < 2 * 48 {
+                    match tokio::time::timeout(Duration::from_secs(3), ts.read(&mut buf)).await {
+                        Ok(Ok(n)) if n > 0 => got += n,
+                        _ => break,
+                    }
+                }
+                match how2.as_str() {
+                    "reset" => { let _ = ts.get_ref().get_ref().get_ref().set_linger(Some(Duration::from_secs(0))); drop(ts); }
+                    "half" => { let _ = ts.shutdown().await; tokio::time::sleep(Duration::from_secs(4)).await; }
+                    _ => drop(ts),
+                }
+            } else {
+                let mut s = s;
+                let mut got = 0usize;
+                while got < 2 * 48 {
+                    match tokio::time::timeout(Duration::from_secs(3), s.read(&mut buf)).await {
+                        Ok(Ok(n)) if n > 0 => got += n,
+                        _ => break,
+                    }
+                }
+                match how2.as_str() {
+                    "reset" => { let _ = s.set_linger(Some(Duration::from_secs(0))); drop(s); }
+                    "half" => { let _ = s.shutdown().await; tokio::time::sleep(Duration::from_secs(4)).await; }
+                    _ => drop(s),
+                }
+            }
+            Ok::<(), String>(())
+        });
+        let mut h = tokio::time::timeout(Duration::from_secs(5), client.connect()).await.map_err(|_| "connect timed out".to_string())?.map_err(|e| format!("connect failed: {:?}", e))?;
+        let d1 = Arc::clone(&dict);
+        tokio::spawn(async move { DiameterClient::handle(&mut h, d1).await; });
+        let f1 = client.send_message(plain_request(&dict, 1)).await.map_err(|e| format!("send 1 failed: {:?}", e))?;
+        let f2 = client.send_message(plain_request(&dict, 2)).await.map_err(|e| format!("send 2 failed: {:?}", e))?;
+        let o1 = outcome(f1, 1).await;
+        let o2 = outcome(f2, 2).await;
+        let o3 = match tokio::time::timeout(Duration::from_secs(3), client.send_message(plain_request(&dict, 3))).await {
+            Ok(Ok(fut)) => match outcome(fut, 3).await { "err" => "futerr", x => x },
+            Ok(Err(_)) => "senderr",
+            Err(_) => "sendpending",
+        };
+        let _ = peer.await;
+        Ok::<String, String>(format!("CLRST f1={} f2={} f3={}", o1, o2, o3))
+    });
+    rt.shutdown_timeout(Duration::from_millis(200));
+    out
+}
+
 pub fn reconn(st: &State, t: &mut Toks) -> PResult<String> {
     let dict = st.dicts.get("b").ok_or_else(|| "dict b missing".to_string())?.clone();
     let variant = t.next()?.to_string();
